@@ -659,6 +659,7 @@ func runC08(c *core.Ctx) {
 		{
 			rule := "c08.block-filter-probe-encoding"
 			n := 0
+			perFn := map[*ssa.Function]int{}
 			for _, pkRel := range probeEncodingPkgs {
 				for _, f := range r.P.ModuleFuncs(pkRel) {
 					for _, in := range ssax.Find(f, func(in ssa.Instruction) bool {
@@ -670,8 +671,9 @@ func runC08(c *core.Ctx) {
 						return nm == "iface:(pkg/index.FilterOp).Eq" || nm == "iface:(pkg/index.FilterOp).Having"
 					}) {
 						n++
+						perFn[f]++
 						arg := ssax.Common(in).Args[1]
-						construct := fmt.Sprintf("%s: probe #%d of the block filter uses the stored encoding", ssax.FuncName(f), n)
+						construct := fmt.Sprintf("%s: probe #%d of the block filter uses the stored encoding", ssax.FuncName(f), perFn[f])
 						display := flowsFromCallWhere(arg, func(c *ssa.Call) bool {
 							nm := ssax.CalleeName(c.Common())
 							if !strings.HasSuffix(nm, ").String") {
@@ -693,7 +695,7 @@ func runC08(c *core.Ctx) {
 					}
 				}
 			}
-			r.Floor(rule, 1)
+			r.Floor(rule, 3)
 		}
 
 		// stream element index: the matched element ids and the matched timestamps are accumulated together
@@ -913,4 +915,4 @@ func guardFields(v ssa.Value) []string {
 }
 
 // probeEncodingPkgs: planner packages whose filter nodes probe per-block tag filters.
-var probeEncodingPkgs = []string{"pkg/query/logical/stream"}
+var probeEncodingPkgs = []string{"pkg/query/logical/stream", "pkg/query/logical/trace"}
